@@ -8,6 +8,8 @@
                                           mode = join | race | hand ; L extra references kept by main
      cont <N> <K> <op> <C> <seed>        a node's count changed by container paths in one thread (C times)
                                           while N workers get/put it directly
+     last <N> <R> <seed>                 R rounds: N threads release the N (= all) references of a node together
+     sched all                           exhaustive schedules of small configurations (model side only)
      seed <N> <R> <keyhex>               N threads race on the first use of the key hash, R later uses each
      seedx <N> <R> <keyhex> <draws>      the same with the first results of the random source scripted
      trees <N> <size> <seed>             N threads on disjoint trees
@@ -149,6 +151,73 @@ let run_cont n k c seed =
   let _ = run_rr ~gens acc 1 st [n] in
   Printf.sprintf "cont destroyed=%d early=%d lost=%d put1=%d volrd ?" acc.destroyed.(0) early lost acc.destroyed.(0)
 
+(* last: R rounds, every round N threads own the N references of a fresh node and release them *)
+let run_last n r =
+  let zero = nat_of_int 0 in
+  let d = ref 0 and bad = ref 0 in
+  for _ = 1 to r do
+    let ths = List.init n (fun _ -> ([Put zero], table 1 (fun _ -> z_of_int 1))) in
+    let st = init_state (table 1 (fun _ -> z_of_int n)) ths in
+    let acc = { destroyed = Array.make 1 0; hashes_rev = []; installs = 0; base = st.mem } in
+    let _ = run_rr acc 1 st (List.init n (fun i -> i)) in
+    d := !d + acc.destroyed.(0);
+    if acc.destroyed.(0) <> 1 then incr bad
+  done;
+  Printf.sprintf "last rounds=%d destroyed=%d put1=%d bad=%d volrd ?" r !d !d !bad
+
+(* sched: exhaustive exploration of ALL schedules of small configurations with the regenerated
+   programs; the clauses of C18_refcount_all_schedules / C18_seed_once are evaluated in every
+   reachable state.  A counterexample is printed with its schedule. *)
+exception Found of string
+
+let explore name rc0 (ths : (call list * int) list) (rnd : nat -> z) (check : state -> bool -> string option) =
+  let n = List.length ths in
+  let st0 = init_state (fun _ -> z_of_int rc0) (List.map (fun (p, h) -> (p, table 1 (fun _ -> z_of_int h))) ths) in
+  let rec go st sched =
+    let live = List.filter (fun i -> not (thread_done (List.nth st.thr i))) (List.init n (fun i -> i)) in
+    (match check st (live = []) with
+     | Some what ->
+       raise (Found (Printf.sprintf "%s schedule=%s %s" name (String.concat "," (List.rev_map string_of_int sched)) what))
+     | None -> ());
+    List.iter (fun i -> go (step impl rnd st (nat_of_int i)) (i :: sched)) live in
+  go st0 []
+
+let count_calls f ths = List.fold_left (fun a (p, _) -> a + List.length (List.filter f p)) 0 ths
+
+let check_rc rc0 ths st fin =
+  let zero = nat_of_int 0 in
+  let rc = int_of_z (st.mem (RC zero)) and d = int_of_z (destroy_count zero st.trace) in
+  let g = count_calls (function Get _ -> true | _ -> false) ths and p = count_calls (function Put _ -> true | _ -> false) ths in
+  if d > 1 then Some (Printf.sprintf "destroyed=%d" d)
+  else if d = 1 && rc <> 0 then Some (Printf.sprintf "destroyed-while-count=%d" rc)
+  else if fin && rc <> rc0 + g - p then Some (Printf.sprintf "final-count=%d expected=%d" rc (rc0 + g - p))
+  else if fin && d <> (if rc = 0 then 1 else 0) then Some (Printf.sprintf "final-count=%d destroyed=%d" rc d)
+  else None
+
+let check_seed st _fin =
+  let hs = hashes st.trace and ins = installs st.trace in
+  if List.length ins > 1 then Some (Printf.sprintf "installs=%d" (List.length ins))
+  else match hs with
+    | [] -> None
+    | h :: _ -> if List.for_all (fun v -> v = h) hs then None
+      else Some ("hashes=" ^ String.concat "/" (List.map string_of_z hs))
+
+let run_sched () =
+  let z = nat_of_int 0 in
+  let rc_cfgs = [
+    ("put2", 2, [([Put z], 1); ([Put z], 1)]);
+    ("put3", 3, [([Put z], 1); ([Put z], 1); ([Put z], 1)]);
+    ("get2", 2, [([Get z], 1); ([Get z], 1)]);
+    ("getput", 2, [([Get z; Put z; Put z], 1); ([Put z], 1)]);
+    ("getput2", 2, [([Get z; Put z], 1); ([Get z; Put z], 1)]) ] in
+  let sentinel_first = rnd_of_script "-1,5,6,7" in
+  try
+    List.iter (fun (name, rc0, ths) -> explore name rc0 ths default_rnd (check_rc rc0 ths)) rc_cfgs;
+    explore "seed2" 1 [([Hash], 0); ([Hash; Hash], 0)] sentinel_first check_seed;
+    explore "seed2b" 1 [([Hash], 0); ([Hash], 0)] default_rnd check_seed;
+    "sched ok volrd ?"
+  with Found w -> "sched VIOLATED " ^ w ^ " volrd ?"
+
 let run_seed ?(rnd = default_rnd) n r =
   let hs k = List.init k (fun _ -> Hash) in
   let ths = List.init n (fun _ -> (hs (1 + r), (fun _ -> Z0))) @ [(hs 1, (fun _ -> Z0))] in
@@ -182,6 +251,8 @@ let run line =
   | ["rc"; n; k; m; mode; l; seed] ->
     run_rc (int_of_string n) (int_of_string k) (int_of_string m) mode (int_of_string l) (int_of_string seed)
   | ["cont"; n; k; _op; c; seed] -> run_cont (int_of_string n) (int_of_string k) (int_of_string c) (int_of_string seed)
+  | ["last"; n; r; _seed] -> run_last (int_of_string n) (int_of_string r)
+  | "sched" :: _ -> run_sched ()
   | ["seed"; n; r; _key] -> run_seed (int_of_string n) (int_of_string r)
   | ["seedx"; n; r; _key; dr] -> run_seed ~rnd:(rnd_of_script dr) (int_of_string n) (int_of_string r)
   | ["trees"; n; _size; _seed] -> run_trees (int_of_string n)
